@@ -93,9 +93,10 @@ func enumRuns(idx []int, layout int, mask uint, pattern int) []RunSpec {
 // TestPropSmallScope enumerates exhaustively: every paragraph of length <= 4 (quick) / <= 5 (thorough)
 // over enumSyms x run layouts {one LTR run, one RTL run, LTR+RTL split in the middle, first rune in its
 // own run, last rune in its own run} x every partition of each run into
-// clusters x glyphs per cluster {1, 2 (thorough)} x 3 policies x TruncateAfterLines in {0,1,2}
+// clusters x glyphs per cluster {1, 2 (thorough)} x 3 policies x TruncateAfterLines in {0,1,2,3,9}
 // (x TextContinues when truncating) x every integer width from 0 to total+1 plus two extreme widths
-// (2^25-1 ... MaxInt64, rotating), through the iterative
+// (2^25-1 ... MaxInt64, rotating) plus four per-line alternations (wide,0 / 0,wide / wide,1 / 1,wide),
+// through the iterative
 // API (and WrapParagraph in the thorough tier). Texts are partitioned over the shards.
 func TestPropSmallScope(t *testing.T) {
 	shard, nshards := ev.Shard()
@@ -177,21 +178,39 @@ func TestPropSmallScope(t *testing.T) {
 						maxW := m.cum[m.n].Ceil() + 1
 						c.Widths = []int{0}
 						for policy := 0; policy < 3; policy++ {
-							for k := 0; k <= 2; k++ {
+							for _, k := range []int{0, 1, 2, 3, 9} { // 9: enabled, never reached (<= 5 runes)
 								for cont := 0; cont < 2; cont++ {
-									if k == 0 && cont == 1 {
+									if (k == 0 || k > 2) && cont == 1 {
 										continue
 									}
 									c.Cfg.Policy, c.Cfg.Lines, c.Cfg.TextContinues = policy, k, cont == 1
 									// every integer width 0..total+1, then two of the extreme widths
 									// (rotating through the list from one configuration to the next)
-									for wi := 0; wi <= maxW+2; wi++ {
+									// ... then four per-line alternations between a wide and a tiny width
+									for wi := 0; wi <= maxW+6; wi++ {
 										w := wi
-										if wi > maxW {
+										c.Widths = c.Widths[:1]
+										switch {
+										case wi > maxW+2:
+											a, z := maxW, (wi-maxW-3)/2 // (wide,0) (0,wide) (wide,1) (1,wide)
+											if (wi-maxW-3)%2 == 1 {
+												a, z = z, a
+											}
+											c.Widths = c.Widths[:0]
+											for i := 0; i < n+2; i++ {
+												if i%2 == 0 {
+													c.Widths = append(c.Widths, a)
+												} else {
+													c.Widths = append(c.Widths, z)
+												}
+											}
+											w = c.Widths[0]
+										case wi > maxW:
 											extremeTurn++
 											w = extremeWidths[extremeTurn%len(extremeWidths)]
 										}
 										c.Widths[0] = w
+										c.Paragraph = ev.Thorough() && len(c.Widths) == 1
 										// build() copied these into the wrap config: keep both in step
 										b.cfg.BreakPolicy = shapingPolicy(policy)
 										b.cfg.TruncateAfterLines = k
@@ -211,7 +230,7 @@ func TestPropSmallScope(t *testing.T) {
 										sampleEvery++
 										if sampleEvery%200003 == 1 {
 											cc := *c
-											cc.Widths = []int{w}
+											cc.Widths = append([]int(nil), c.Widths...)
 											ev.Sample(&cc)
 										}
 									}
